@@ -1394,3 +1394,121 @@ Proof.
   destruct (one_string_arg (fun t => vec_new (map VChar t)) s sid t Hok Hs) as (s2 & H1 & H2 & H3 & E).
   unfold string_vector. rewrite E, vec_new_run, H1. finish_ret.
 Qed.
+
+(* ------------------------------------------------------- n-ary builtins *)
+Fixpoint popn (n : nat) (s : vm) : vm := match n with O => s | S k => popn k (pop1 s) end.
+Lemma st_popn n : forall s, st (popn n s) = st s.
+Proof. induction n; intro s; cbn [popn]; [reflexivity|]. now rewrite IHn. Qed.
+Lemma hp_popn n : forall s, hp (popn n s) = hp s.
+Proof. induction n; intro s; cbn [popn]; [reflexivity|]. now rewrite IHn. Qed.
+Lemma sp_popn n : forall s, sp (popn n s) = sp s - N.of_nat n.
+Proof.
+  induction n; intro s; cbn [popn]; [cbn; lia|]. rewrite IHn, sp_pop1. lia.
+Qed.
+
+(* all adjacent pairs of the argument list are related *)
+Fixpoint chain {A} (r : A -> A -> bool) (l : list A) : bool :=
+  match l with
+  | x :: ((y :: _) as tl) => r x y && chain r tl
+  | _ => true
+  end.
+(* the fold as the Rust loops run it: from the last argument backwards *)
+Fixpoint chain_from {A} (comp : A -> A -> bool) (y : A) (l : list A) (res : bool) : bool :=
+  match l with
+  | [] => res
+  | x :: l' => chain_from comp x l' (if comp x y then res else false)
+  end.
+
+Lemma chain_snoc {A} (r : A -> A -> bool) m x y :
+  chain r (m ++ [x; y]) = chain r (m ++ [x]) && r x y.
+Proof.
+  induction m as [|a m IH].
+  - cbn. now rewrite andb_true_r.
+  - destruct m as [|b m].
+    + cbn. now rewrite !andb_true_r.
+    + change ((a :: b :: m) ++ [x; y]) with (a :: (b :: m) ++ [x; y]).
+      change ((a :: b :: m) ++ [x]) with (a :: (b :: m) ++ [x]).
+      cbn [chain app] in *. rewrite IH. now rewrite andb_assoc.
+Qed.
+
+Lemma chain_from_spec {A} (comp : A -> A -> bool) l : forall y res,
+  chain_from comp y l res = res && chain comp (rev l ++ [y]).
+Proof.
+  induction l as [|x l IH]; intros y res; cbn [chain_from rev app].
+  - cbn. now rewrite andb_true_r.
+  - rewrite IH. rewrite <- app_assoc. cbn [app]. rewrite chain_snoc.
+    destruct (comp x y), res; cbn; try reflexivity; now rewrite ?andb_true_r, ?andb_false_r.
+Qed.
+
+(* string *)
+Lemma string_loop_spec l : forall acc s0 rest,
+  top_is s0 (map VChar l ++ rest) ->
+  string_loop (length l) acc s0 = ROk (rev l ++ acc) (popn (length l) s0)
+  /\ top_is (popn (length l) s0) rest.
+Proof.
+  induction l as [|c l IH]; intros acc s0 rest Ht; cbn [map app length string_loop popn rev] in *.
+  - split; [reflexivity|exact Ht].
+  - destruct (pop_char_top _ _ _ Ht I) as [E T]. cbn [as_char opt_res] in E.
+    rewrite (bindM_ok _ _ _ _ _ E). destruct (IH (c :: acc) _ _ T) as [E2 T2].
+    rewrite E2, <- app_assoc. split; [reflexivity|exact T2].
+Qed.
+
+Theorem string_refines s cs :
+  stack_ok s ->
+  returns (run_builtin string_ (map VChar cs) s) s (VStr (next_id (st s))) (snd (new_str (st s) cs)).
+Proof.
+  intro Hok. enter_raw Hok s1. unfold string_.
+  pop_argc_ 0 (@None N).
+  rewrite len_length, Nat2N.id, map_length, <- (rev_length cs).
+  rewrite <- map_rev in T. rewrite <- (app_nil_r (map VChar (rev cs))) in T.
+  destruct (string_loop_spec _ [] _ _ T) as [E T2].
+  rewrite (bindM_ok _ _ _ _ _ E). rewrite rev_involutive, app_nil_r, str_new_run.
+  rewrite st_popn, st_pop1, Hst1.
+  eexists. split; [reflexivity|]. norm_state. rewrite hp_popn, sp_popn, hp_pop1, sp_pop1.
+  repeat split; try congruence. rewrite Hsp1, rev_length, len_length, map_length. lia.
+Qed.
+
+(* string-append *)
+Definition lookup (s : vm) (sid : N) (t : text) : Prop := tget (strs (st s)) sid = Some t.
+
+Lemma string_append_loop_spec s l : forall ts out s0 rest,
+  Forall2 (lookup s) l ts -> st s0 = st s ->
+  top_is s0 (map VStr l ++ rest) ->
+  string_append_loop (length l) out s0 = ROk (concat (rev ts) ++ out) (popn (length l) s0)
+  /\ top_is (popn (length l) s0) rest.
+Proof.
+  induction l as [|sid l IH]; intros ts out s0 rest HF Hst Ht; inversion HF; subst;
+    cbn [map app length string_append_loop popn rev concat] in *.
+  - split; [reflexivity|exact Ht].
+  - destruct (pop_string_top _ _ _ Ht I) as [E T]. cbn [as_string opt_res] in E.
+    rewrite (bindM_ok _ _ _ _ _ E).
+    rewrite (bindM_ok _ _ _ _ _ (str_get_ok (pop1 s0) sid y ltac:(rewrite st_pop1, Hst; assumption))).
+    destruct (IH l' (y ++ out) (pop1 s0) rest H3 ltac:(now rewrite st_pop1) T) as [E2 T2].
+    rewrite E2. split; [|exact T2].
+    rewrite concat_app. cbn [concat]. now rewrite app_nil_r, <- app_assoc.
+Qed.
+
+Lemma Forall2_snoc {A B} (R : A -> B -> Prop) l l' x y :
+  Forall2 R l l' -> R x y -> Forall2 R (l ++ [x]) (l' ++ [y]).
+Proof. induction 1; intro Hxy; cbn; constructor; auto. Qed.
+
+Lemma Forall2_rev' {A B} (R : A -> B -> Prop) l l' :
+  Forall2 R l l' -> Forall2 R (rev l) (rev l').
+Proof. induction 1; cbn [rev]; [constructor|]. now apply Forall2_snoc. Qed.
+
+Theorem string_append_refines s sids ts :
+  stack_ok s -> Forall2 (lookup s) sids ts ->
+  returns (run_builtin string_append (map VStr sids) s) s (VStr (next_id (st s)))
+    (snd (new_str (st s) (concat ts))).
+Proof.
+  intros Hok HF. enter_raw Hok s1. unfold string_append.
+  pop_argc_ 0 (@None N).
+  rewrite len_length, Nat2N.id, map_length, <- (rev_length sids).
+  rewrite <- map_rev in T. rewrite <- (app_nil_r (map VStr (rev sids))) in T.
+  assert (HF' : Forall2 (lookup s) (rev sids) (rev ts)) by now apply Forall2_rev'.
+  destruct (string_append_loop_spec s _ _ [] _ _ HF' ltac:(rewrite st_pop1; exact Hst1) T) as [E T2].
+  rewrite (bindM_ok _ _ _ _ _ E). rewrite rev_involutive, app_nil_r, str_new_run.
+  rewrite st_popn, st_pop1, Hst1.
+  eexists. split; [reflexivity|]. norm_state. rewrite hp_popn, sp_popn, hp_pop1, sp_pop1.
+  repeat split; try congruence. rewrite Hsp1, rev_length, len_length, map_length. lia.
+Qed.
